@@ -55,6 +55,21 @@ Bytes(q) == FoldLeft(LAMBDA acc, s : acc \o [i \in 1..(IF s[2] > 0 THEN s[2] ELS
 Same(a, b) == LET t == Total(a) IN
               t = Total(b) /\ (IF t <= 2048 THEN Bytes(a) = Bytes(b) ELSE SameBig(a, b))
 
+\* run lists (stride 0): merge adjacent runs of the same byte, drop empty ones
+CanonRuns(q) == FoldLeft(LAMBDA acc, s : IF s[2] <= 0 THEN acc
+                                        ELSE IF acc # <<>> /\ acc[Len(acc)][1] = s[1]
+                                        THEN [acc EXCEPT ![Len(acc)] = <<s[1], acc[Len(acc)][2] + s[2], 0>>]
+                                        ELSE Append(acc, <<s[1], s[2], 0>>), <<>>, q)
+\* is run list a a subsequence of run list e?  (greedy earliest match, one Java loop over e)
+Subseq(a, e) ==
+  LET ac == CanonRuns(a)
+      f == FoldLeft(LAMBDA st, r : IF st[1] > Len(ac) \/ r[2] <= 0 \/ ac[st[1]][1] # r[1] THEN st
+                                   ELSE IF r[2] < st[2] THEN <<st[1], st[2] - r[2]>>
+                                   ELSE IF st[1] + 1 > Len(ac) THEN <<st[1] + 1, 0>>
+                                   ELSE <<st[1] + 1, ac[st[1] + 1][2]>>,
+                    IF ac = <<>> THEN <<1, 0>> ELSE <<1, ac[1][2]>>, e)
+  IN f[1] > Len(ac)
+
 \* well-formed logged string: byte values, positive lengths, stride 1 only below 251
 WF(q) == \A i \in 1..Len(q) : /\ Len(q[i]) = 3 /\ q[i][1] \in 0..255 /\ q[i][2] >= 1 /\ q[i][3] \in {0, 1}
                               /\ (q[i][3] = 1 => q[i][1] < M)
